@@ -754,8 +754,13 @@ def fam_coargument(W):
 
 def fam_scalars(W):
     F = Family("ScalarValue")
-    for v in [1, 2, -1, 3, 99, 100, -100, 101, 10**20, 10**20 + 1]:
+    for v in [1, 2, -1, 3, 99, 100, -100, 101, 200, 10**20, 10**20 + 1]:
         F.add({"value": repr(v)}, lambda v=v: IntValue(v))
+    # the same integers / floats arriving as other numeric types (array entries, shapes, flags): identical data
+    for v in [np.int64(200), np.int32(200), np.int64(-100), np.int16(101), np.int64(3), True]:
+        F.add({"value": repr(int(v))}, lambda v=v: IntValue(v), tag="numeric-type")
+    for v in [np.float64(1.5), np.float32(1.5), np.float64(100.0)]:
+        F.add({"value": repr(float(v))}, lambda v=v: FloatValue(v), tag="numeric-type")
     for v in [1.0, 2.0, -1.0, 1.5, 1.5000000000000002, 0.1 + 0.2, 0.3, 1e-300, 1e300, 5e-324, 100.0, 1e20]:
         F.add({"value": repr(v)}, lambda v=v: FloatValue(v))
     for v in [1j, 2j, 1 + 1j, 1 - 1j, 1.5 + 1j, 1.5000000000000002 + 1j, 1 + 1e-300j]:
